@@ -41,7 +41,13 @@ struct Built {
 
 fn value_expr(rng: &mut Rng, width: u8, syms: &[(String, i64)], want_fit: bool) -> Option<E> {
     for _ in 0..30 {
-        let e = match rng.below(6) {
+        let e = match rng.below(7) {
+            // a character literal: ASCII, Latin-1, and code points that need two, three or four bytes in
+            // the source - its value is the code point, which fits the element or does not
+            6 => {
+                let cp = *rng.pick(&[0x41i64, 0x7e, 0xe9, 0xff, 0x100, 0x17f, 0x20ac, 0xffff, 0x10000, 0x1f600, 0x10ffff]);
+                E::Lit(cp, 5)
+            }
             0 | 1 => {
                 let (v, f) = boundary(width, rng);
                 if f != want_fit {
